@@ -470,7 +470,7 @@ func checkC08Apply(p *Prog, r *Result) {
 			return true
 		}
 		// `if incr { resp.Add(x) } else { resp.Sub(x) }` with x the given object, in fn (the function or a local closure)
-		dirSwitch := func(fn *FuncNode, s *ast.IfStmt, x types.Object) bool {
+		dirSwitch := func(fn *FuncNode, s *ast.IfStmt, x types.Object, incr types.Object) bool {
 			if fn.objOf(s.Cond) == incr && s.Init == nil && s.Else != nil && len(s.Body.List) == 1 {
 				if eb, ok := s.Else.(*ast.BlockStmt); ok && len(eb.List) == 1 {
 					m1, a1 := methodCallOn(fn, s.Body.List[0])
@@ -494,22 +494,30 @@ func checkC08Apply(p *Prog, r *Result) {
 				conv, convObj = true, F.objOf(s.Lhs[0])
 			case *ast.IfStmt:
 				// if incr { resp.Add(x) } else { resp.Sub(x) }
-				if dirSwitch(F, s, convObj) && convObj != nil {
+				if dirSwitch(F, s, convObj, incr) && convObj != nil {
 					applied = true
 				} else {
 					why = "the loop contains a condition other than the direction switch `if incr {Add} else {Sub}` (" + exprStr(s.Cond) + "): some workload resources or deltas are skipped, so usage drifts from the sum of the workloads (a bind-only delta has zero CPU and memory request but non-empty per-core pieces)"
 				}
 			case *ast.ExprStmt:
-				// apply(x) with apply a local closure whose whole body is the direction switch on its parameter
+				// apply(x) / applyTo(resp, x, incr): a local closure or a declared helper whose whole body is the direction
+				// switch on the parameter that receives x (and on incr, captured or handed in)
 				good := false
-				if c, ok := unparen(s.X).(*ast.CallExpr); ok && len(c.Args) == 1 {
-					if t, ok := p.resolveFuncArg(F, c.Fun); ok && t != nil && t.Lit != nil && t.Body != nil && len(t.Body.List) == 1 {
-						if is, ok := t.Body.List[0].(*ast.IfStmt); ok && t.paramObj(0) != nil && dirSwitch(t, is, t.paramObj(0)) {
-							if o := F.objOf(c.Args[0]); o != nil && o == convObj {
-								good = true
-							} else if checkLit(c.Args[0]) {
-								good, conv = true, true
+				if c, ok := unparen(s.X).(*ast.CallExpr); ok && len(c.Args) >= 1 {
+					if t, ok := p.resolveFuncArg(F, c.Fun); ok && t != nil && t.Body != nil && len(t.Body.List) == 1 {
+						valIdx, tIncr := -1, incr
+						for i, a := range c.Args {
+							switch o := F.objOf(a); {
+							case o != nil && o == incr:
+								tIncr = t.paramObj(i)
+							case o != nil && o == convObj:
+								valIdx = i
+							case o == nil && checkLit(a):
+								valIdx, conv = i, true
 							}
+						}
+						if is, ok := t.Body.List[0].(*ast.IfStmt); ok && valIdx >= 0 && t.paramObj(valIdx) != nil && tIncr != nil && dirSwitch(t, is, t.paramObj(valIdx), tIncr) {
+							good = true
 						}
 					}
 				}
